@@ -4,7 +4,7 @@ from specs.common import J
 G = "internal/graph"
 
 MODELS_QUICK = ["direct", "wildcard", "union_computed", "userset", "ttu", "exclusion", "intersection", "condition",
-                "inter_excl", "shared_tuples", "userset_flat", "h6", "condition_userset", "cond_wild"]
+                "inter_excl", "shared_tuples", "userset_flat", "h6", "condition_userset", "cond_wild", "cond_shapes"]
 MODELS_ALL = MODELS_QUICK + ["computed_chain", "rec_intersection", "userset_ttu_mix", "ttu_excl"]
 
 
@@ -23,8 +23,12 @@ def c01(tier, seed):
     for m in ["dashed", "cond_wild"] + ([] if q else ["userset", "ttu"]):
         jobs.append(J(G, "VerifE01Check", model=m, maxcands=12, prior=1, subjects="min", timeout_ms=60000, unwind=64, max_paths=8000 if q else 100000))
     # a userset cycle next to a granting path under an intersection / exclusion, operands consumed one at a time
-    jobs.append(J(G, "VerifE01Check", model="cycle_inter", maxcands=14, invalid=0, subjects="min", breadth=1, timeout_ms=60000, unwind=64, max_paths=8000 if q else 100000))
+    # (the WHOLE universe of 20 tuples: the cycle, the granting path and both operands must be storable at once;
+    #  requests 7 and 15 are document:1#auditor@user:1 and document:1#viewer@user:1, thorough: every request)
+    for r in (7, 15):
+        jobs.append(J(G, "VerifE01Check", model="cycle_inter", maxcands=20, invalid=0, subjects="min", breadth=1, req=r, timeout_ms=60000, unwind=64, max_paths=8000 if q else 100000))
     if not q:
+        jobs.append(J(G, "VerifE01Check", model="cycle_inter", maxcands=20, invalid=0, subjects="min", breadth=1, timeout_ms=60000, unwind=64, max_paths=100000))
         jobs.append(J(G, "VerifE01Check", model="cycle_inter", maxcands=14, invalid=0, subjects="min", timeout_ms=60000, unwind=64, max_paths=100000))
     return jobs
 
